@@ -11,6 +11,13 @@ TECH = ("bounded symbolic execution of the real Go code (go/ssa of /repo's worki
 
 # id -> (level text, level note, design ref)
 CLAIMED = {
+ "C01": ("Partial (fork matching and chunk-argument merge): fork ids with symbolic array indices on two mapped roots, symbolic "
+         "membership of roots, consumer/reference indices including out-of-range ones, and arbitrary argument keys run through the real "
+         "matchForks, UnmatchedParts, matchFork/Match/Matches/indexEqual/Equal and ChunkDef.MergeArguments; the solver shows the result is "
+         "exactly the in-order filter / the uniquely determined producer fork / the key-wise merge, or yields the ids that break it.",
+         "Trusted: go/ssa, symgo, z3. Outside: static AST resolution, JSON projection, resolveMerge/resolveSplit and getParts, "
+         "top-level _outs, map-key forks and more than two fork dimensions.",
+         "DESIGN.md §4 C01"),
  "C08": ("Every byte string up to 3 (thorough 4) bytes is run symbolically through the real lexer step, the scanner loop, and the whole "
          "expression parser (yacc tables + grammar actions); 19/20-digit integer tokens and 8-hex-digit \\U escapes get their own harnesses. "
          "An uncaught Go panic on any path is a violation with concrete bytes, replayed natively. Partial: lexer contract and "
